@@ -95,7 +95,7 @@ func polygamma_atinfinityplus(n int, x float64) float64 {
     return sum
   }
   for k := 1;; {
-    term = part_term * BernoulliNumber(k)
+    term = part_term * BernoulliNumber(2*k)
     sum += term
     //
     // Normal termination condition:
